@@ -26,6 +26,8 @@ func TestSim(t *testing.T) {
 	simrt.Main(t,
 		&simrt.Harness{Name: "map", Body: func(s *simrt.Sim) { body(s, mapFlavour) }},
 		&simrt.Harness{Name: "set", Body: func(s *simrt.Sim) { body(s, setFlavour) }},
+		&simrt.Harness{Name: "concmap", Body: func(s *simrt.Sim) { conc(s, mapFlavour) }},
+		&simrt.Harness{Name: "concset", Body: func(s *simrt.Sim) { conc(s, setFlavour) }},
 	)
 }
 
